@@ -145,7 +145,9 @@ def int_table(rng, d2, keys, causal, lo=-1, hi=1):
     for k in keys:
         m = gint(rng, (d2, d2), lo, hi)
         if k == 0:
-            m = np.diag(np.diag(m))
+            dg = np.diag(m).copy()
+            dg[dg == 0] = 1          # a vanishing dk=0 weight annihilates paths; keep the network non-degenerate
+            m = np.diag(dg)
             if causal:
                 for j in tr:
                     m[j, j] = 1
